@@ -9,6 +9,7 @@ from ..dense import dense, close
 from ..drive import call, expect_refusal
 from ..shard import Workload
 from ._common import arm_tt
+from . import ambient
 
 P = 'C02'
 tt = None
@@ -44,7 +45,7 @@ def w_tensordot(ctx, rng, idx, param):
     s2 = slice(d2 - k, d2) if mode.endswith('last') else slice(0, k)
     r2[s2] = r1[s1]
     c2[s2] = c1[s1]
-    ca, cb = bool(rng.integers(0, 2)), bool(rng.integers(0, 2))
+    ca, cb = gen.rand_cplx(rng), gen.rand_cplx(rng)
     a = gen.rand_tt(rng, r1, c1, gen.rand_ranks(rng, d1, 3), ca)
     b = gen.rand_tt(rng, r2, c2, gen.rand_ranks(rng, d2, 3), cb)
     ctx.describe({'op': 'tensordot', 'mode': mode, 'd1': d1, 'd2': d2, 'k': k, 'overwrite': ow, 'a': [r1, c1, a.ranks], 'b': [r2, c2, b.ranks]})
@@ -62,7 +63,7 @@ def w_rank_tensordot(ctx, rng, idx):
     rows, cols = gen.rand_dims(rng, d, 3), gen.rand_dims(rng, d, 2)
     r0, rd = int(rng.integers(1, 4)), int(rng.integers(1, 4))
     ranks = gen.rand_ranks(rng, d, 3, boundary=(r0, rd))
-    a = gen.rand_tt(rng, rows, cols, ranks, bool(rng.integers(0, 2)))
+    a = gen.rand_tt(rng, rows, cols, ranks, gen.rand_cplx(rng))
     mode = ['first', 'last'][int(rng.integers(0, 2))]
     k = int(rng.integers(1, 4))
     M = gen.randn(rng, (rd, k) if mode == 'last' else (k, r0), bool(rng.integers(0, 2)))
@@ -75,8 +76,8 @@ def w_concatenate(ctx, rng, idx):
     d1, d2 = int(rng.integers(1, 4)), int(rng.integers(1, 4))
     mid = int(rng.integers(1, 4)) if rng.random() < 0.6 else 1
     r0, re = (int(rng.integers(1, 3)), int(rng.integers(1, 3))) if rng.random() < 0.3 else (1, 1)
-    a = gen.rand_tt(rng, gen.rand_dims(rng, d1, 3), gen.rand_dims(rng, d1, 2), gen.rand_ranks(rng, d1, 3, boundary=(r0, mid)), bool(rng.integers(0, 2)))
-    b = gen.rand_tt(rng, gen.rand_dims(rng, d2, 3), gen.rand_dims(rng, d2, 2), gen.rand_ranks(rng, d2, 3, boundary=(mid, re)), bool(rng.integers(0, 2)))
+    a = gen.rand_tt(rng, gen.rand_dims(rng, d1, 3), gen.rand_dims(rng, d1, 2), gen.rand_ranks(rng, d1, 3, boundary=(r0, mid)), gen.rand_cplx(rng))
+    b = gen.rand_tt(rng, gen.rand_dims(rng, d2, 3), gen.rand_dims(rng, d2, 2), gen.rand_ranks(rng, d2, 3, boundary=(mid, re)), gen.rand_cplx(rng))
     ow = bool(rng.integers(0, 2))
     aslist = bool(rng.integers(0, 2))
     ctx.describe({'op': 'concatenate', 'a_ranks': a.ranks, 'b_ranks': b.ranks, 'list': aslist, 'overwrite': ow})
@@ -90,7 +91,7 @@ def w_concatenate(ctx, rng, idx):
 def w_rank_transpose(ctx, rng, idx):
     d = int(rng.integers(1, 6))
     bnd = (int(rng.integers(1, 3)), int(rng.integers(1, 3))) if rng.random() < 0.4 else (1, 1)
-    a = gen.rand_tt(rng, gen.rand_dims(rng, d, 3), gen.rand_dims(rng, d, 3), gen.rand_ranks(rng, d, 4, boundary=bnd), bool(rng.integers(0, 2)))
+    a = gen.rand_tt(rng, gen.rand_dims(rng, d, 3), gen.rand_dims(rng, d, 3), gen.rand_ranks(rng, d, 4, boundary=bnd), gen.rand_cplx(rng))
     ow = bool(rng.integers(0, 2))
     ctx.describe({'op': 'rank_transpose', 'dims': [a.row_dims, a.col_dims], 'ranks': a.ranks, 'overwrite': ow})
     call('TT.rank_transpose', lambda: a.rank_transpose(overwrite=ow), prop=P)
@@ -113,7 +114,7 @@ def w_diag(ctx, rng, idx, param):
         for i in range(d):
             if i not in sub:
                 cols[i] = int(rng.integers(1, 3))
-    a = gen.rand_tt(rng, rows, cols, gen.rand_ranks(rng, d, 3), bool(rng.integers(0, 2)))
+    a = gen.rand_tt(rng, rows, cols, gen.rand_ranks(rng, d, 3), gen.rand_cplx(rng))
     ctx.describe({'op': 'diag', 'rows': rows, 'cols': cols, 'ranks': a.ranks, 'diag_list': sub})
     call('TT.diag', lambda: a.diag(sub), prop=P)
 
@@ -142,7 +143,7 @@ def w_squeeze(ctx, rng, idx, mask):
         else:
             rows.append(1)
             cols.append(1)
-    a = gen.rand_tt(rng, rows, cols, gen.rand_ranks(rng, d, 3), bool(rng.integers(0, 2)))
+    a = gen.rand_tt(rng, rows, cols, gen.rand_ranks(rng, d, 3), gen.rand_cplx(rng))
     ctx.describe({'op': 'squeeze', 'rows': rows, 'cols': cols, 'ranks': a.ranks})
     call('TT.squeeze', a.squeeze, prop=P)
     if idx < 2:
@@ -190,7 +191,7 @@ def w_qtt(ctx, rng, idx):
             fr = [fr[j] for j in perm]
         rf.append(fr)
         cf.append(fc)
-    a = gen.rand_tt(rng, rows, cols, gen.rand_ranks(rng, d, 3), bool(rng.integers(0, 2)))
+    a = gen.rand_tt(rng, rows, cols, gen.rand_ranks(rng, d, 3), gen.rand_cplx(rng))
     ctx.describe({'op': 'tt2qtt/qtt2tt', 'rows': rows, 'cols': cols, 'row_factors': rf, 'col_factors': cf, 'ranks': a.ranks})
     ok, q = call('TT.tt2qtt', lambda: a.tt2qtt(rf, cf), prop=P)
     if ok and isinstance(q, tt.TT):
@@ -252,6 +253,7 @@ WORKLOADS = [
     Workload('squeeze', w_squeeze, None, None, enum=enum_squeeze),
     Workload('qtt', w_qtt, 250, 4000),
     Workload('build_core', w_build_core, 300, 4000),
+    ambient.WORKLOAD,
 ]
 
 REQUIRED = ['C02|TT.tensordot:value', 'C02|TT.tensordot:value_complete', 'C02|TT.rank_tensordot:value', 'C02|TT.concatenate:value',
